@@ -129,6 +129,19 @@ def prepare_examples(ctx, extreme_rain=True):
             sl[i] = l[:62] + "10" + l[64:67] + "0.3" + "06" + l[72:]
             break
     open(sp, "w").write("\n".join(sl))
+    # irrigation from file with an entry dated before the simulation start and differing N concentrations (all
+    # shipped polygons have Ir = 0): plot 10002 of project ex1
+    pp = os.path.join(ex, "project", "ex1", "poly_ex1.txt")
+    pl = open(pp).read().split("\n")
+    for i, l in enumerate(pl):
+        if l.startswith("10002 ") and " 99 99 0 " in l:
+            pl[i] = l.replace(" 99 99 0 ", " 99 99 1 ", 1)
+    open(pp, "w").write("\n".join(pl))
+    open(os.path.join(ex, "project", "ex1", "irr_ex1.txt"), "w").write(
+        "Field_ID  Ir N03 date\n          mm mg/l \n"
+        "SMSOY2    10  10 05011978\nSMSOY2    12  70 06011979\n"
+        "SMSOY2    20  50 06151980\nSMSOY2    15   0 07101980\nSMSOY2    15  35 06201981\nSMSOY2    25  10 07051982\n"
+        "SMSOY2    18  45 06121984\nSMSOY2    22   5 07011987\nSMSOY2    16  60 06251990\nend\n")
     # a stand whose roots reach the last (20th) layer (shipped soils stop at 13-15 dm, shipped rotations of myP are
     # maize/soy): project myP gets soil 075 with RootDepth 20 and winter wheat from the second year on
     mp = os.path.join(ex, "project", "myP")
@@ -172,7 +185,7 @@ TRACE_LINES = [
     ("project=ex1 WeatherFolder=extreme soilId=075 fcode=109_120 plotNr=10001 Altitude=73 Latitude=52.6732 poligonID=29872", "EN"),
     ("project=ex3 WeatherFolder=extreme soilId=075 fcode=109_120 plotNr=10001 Altitude=73 Latitude=52.6732 poligonID=29872 ETpot=2", "EN"),
     ("project=zuc WeatherFolder=extreme fcode=109_120 plotNr=10001 soilId=001 Altitude=73 Latitude=52.6732 poligonID=29872 ETpot=4", "DE"),
-    ("project=ex1 WeatherFolder=historical soilId=160 fcode=109_120 plotNr=10002 Altitude=73 Latitude=52.6728 poligonID=29873 ETpot=3", "EN"),
+    ("project=ex1 WeatherFolder=historical soilId=160 fcode=109_120 plotNr=10002 Altitude=73 Latitude=52.6728 poligonID=29873 ETpot=3 AutoIrrigation=0", "EN"),
     ("project=ex3 WeatherFolder=historical soilId=075 fcode=109_120 plotNr=10001 Altitude=73 Latitude=52.6732 poligonID=29872 PTF=2", "EN"),
     ("project=myP WeatherFolder=extreme soilId=075 plotNr=10001 Altitude=73 Latitude=52.6732 poligonID=29872 ETpot=2 AutoIrrigation=0", "EN"),
     ("project=bulk WeatherFolder=extreme soilId=002 fcode=109_120 plotNr=10001 Altitude=73 Latitude=52.6732 poligonID=29872", "EN"),
